@@ -114,6 +114,31 @@ pub fn run(ctx: &Ctx) -> Value {
             _ => tw.emit(ev("o.div", json!({"a": dur(a), "k": big(k as i128), "via": "div_op"}), || json!({"r": dur(a / k)}))),
         }
     }
+    // pairs whose exact result lies within a second of either range end, through every route
+    let lim_pairs: Vec<(i128, i128)> = { let mut v = Vec::new();
+        for a in [DUR_LIM, DUR_LIM - 1, DUR_LIM - NS + 1, DUR_LIM - NS, DUR_LIM - 500_000_000] { for b in [0i128, 1, 2, NS - 1, NS, 500_000_000, 192_999_999, 193_000_000, 193_000_001] {
+            v.push((a, b)); v.push((-a, -b)); v.push((b, a)); v.push((a, -b)); v.push((-a, b)); } }
+        v };
+    for (an, bn) in lim_pairs {
+        let (a, b) = (mk_dur(an).unwrap(), mk_dur(bn).unwrap());
+        tw.emit(ev("d.add", json!({"a": dur(a), "b": dur(b)}), || json!({"r": od(a.checked_add(&b))})));
+        tw.emit(ev("d.sub", json!({"a": dur(a), "b": dur(b)}), || json!({"r": od(a.checked_sub(&b))})));
+        tw.emit(ev("o.add", json!({"a": dur(a), "b": dur(b), "via": "add"}), || json!({"r": dur(a + b)})));
+        tw.emit(ev("o.sub", json!({"a": dur(a), "b": dur(b), "via": "sub"}), || json!({"r": dur(a - b)})));
+        tw.emit(ev("o.add", json!({"a": dur(a), "b": dur(b), "via": "add_assign"}), || { let mut x = a; x += b; json!({"r": dur(x)}) }));
+        tw.emit(ev("o.sub", json!({"a": dur(a), "b": dur(b), "via": "sub_assign"}), || { let mut x = a; x -= b; json!({"r": dur(x)}) }));
+        tw.emit(ev("o.sum", json!({"a": dur(a), "b": dur(b), "via": "sum_refs"}), || json!({"r": dur([a, b].iter().sum::<TimeDelta>())})));
+        tw.emit(ev("o.sum", json!({"a": dur(a), "b": dur(b), "via": "sum_values"}), || json!({"r": dur(vec![a, b].into_iter().sum::<TimeDelta>())})));
+    }
+    // sums of several durations, by reference and by value (the fold is left to right; a partial sum outside the range panics)
+    for i in 0..ctx.t(400, 20_000) {
+        let n = 3 + rng.below(4);
+        let xs: Vec<TimeDelta> = (0..n).map(|_| match rng.below(4) { 0 => *rng.pick(&lat), 1 => mk_dur(rng.range(-3, 3) as i128 * NS + rng.range(600_000_000, 999_999_999) as i128).unwrap(),
+            2 => mk_dur(-(rng.range(1, 999_999_999) as i128)).unwrap(), _ => mk_dur(rng.range(-5_000_000_000, 5_000_000_000) as i128).unwrap() }).collect();
+        let a = json!({"xs": xs.iter().map(|x| dur(*x)).collect::<Vec<_>>(), "via": if i % 2 == 0 { "refs" } else { "values" }});
+        if i % 2 == 0 { tw.emit(ev("o.sumn", a, || json!({"r": dur(xs.iter().sum::<TimeDelta>())}))); }
+        else { let ys = xs.clone(); tw.emit(ev("o.sumn", a, || json!({"r": dur(ys.into_iter().sum::<TimeDelta>())}))); }
+    }
     #[allow(deprecated)]
     tw.emit(ev("d.const", json!({"via": "deprecated aliases"}), || json!({"min": dur(TimeDelta::min_value()), "max": dur(TimeDelta::max_value()), "zero": dur(TimeDelta::default())})));
     // sessions: operator chains on a register; the trace spec checks the range invariant in every state
